@@ -155,6 +155,8 @@ impl<T: RcObject> AtomicRc<T> {
         #[cfg(feature = "circ_verif")]
         crate::verif::yp2(crate::verif::site::ARC_STORE_SWAP, &self.link as *const _ as usize, new_ptr.verif_word(), 0);
         let old_ptr = self.link.swap(new_ptr.with_timestamp(), order);
+        #[cfg(feature = "circ_verif")]
+        crate::verif::ev(crate::verif::kind::LINK_SWAPPED, &self.link as *const _ as usize, old_ptr.verif_word(), 0);
         // Skip decrementing a strong count of the inserted pointer.
         forget(ptr);
         unsafe {
@@ -176,6 +178,8 @@ impl<T: RcObject> AtomicRc<T> {
         #[cfg(feature = "circ_verif")]
         crate::verif::yp2(crate::verif::site::ARC_SWAP, &self.link as *const _ as usize, new_ptr.verif_word(), 0);
         let old_ptr = self.link.swap(new_ptr.with_timestamp(), order);
+        #[cfg(feature = "circ_verif")]
+        crate::verif::ev(crate::verif::kind::LINK_SWAPPED, &self.link as *const _ as usize, old_ptr.verif_word(), 1);
         Rc::from_raw(old_ptr)
     }
 
@@ -221,6 +225,8 @@ impl<T: RcObject> AtomicRc<T> {
                 }
                 Err(current_raw) => {
                     if current_raw.ptr_eq(expected_raw) {
+                        #[cfg(feature = "circ_verif")]
+                        crate::verif::ev(crate::verif::kind::CAS_STAMP_RETRY, &self.link as *const _ as usize, 0, 0);
                         expected_raw = current_raw;
                     } else {
                         let current = Snapshot::from_raw(current_raw, guard);
@@ -275,6 +281,8 @@ impl<T: RcObject> AtomicRc<T> {
                 }
                 Err(current_raw) => {
                     if current_raw.ptr_eq(expected_raw) {
+                        #[cfg(feature = "circ_verif")]
+                        crate::verif::ev(crate::verif::kind::CAS_STAMP_RETRY, &self.link as *const _ as usize, 0, 0);
                         expected_raw = current_raw;
                     } else {
                         let current = Snapshot::from_raw(current_raw, guard);
@@ -329,6 +337,8 @@ impl<T: RcObject> AtomicRc<T> {
                 Ok(current_raw) => return Ok(Snapshot::from_raw(current_raw, guard)),
                 Err(current_raw) => {
                     if current_raw.ptr_eq(expected_raw) {
+                        #[cfg(feature = "circ_verif")]
+                        crate::verif::ev(crate::verif::kind::CAS_STAMP_RETRY, &self.link as *const _ as usize, 0, 0);
                         expected_raw = current_raw;
                     } else {
                         return Err(CompareExchangeError {
